@@ -1,6 +1,7 @@
 import TTV.Model.Result
 import TTV.Model.ResC08
 import TTV.Spec.C08
+import TTV.Lemmas.DetailsStr
 /-! # C08 — result adapters deliver each call once (work in progress) -/
 namespace TTV.Props.C08
 open TTV.Result TTV.ResC08 TTV.Spec.C08
@@ -509,5 +510,199 @@ theorem C08_forward_wf (s : Shape) (hs : s.noStream = true) (h : List Call)
     (leaves s (run s (init s) h)).map tlog = expect s (testEvs h) := by
   rw [C08_forward s hs h]
   exact expectV_eq s _ (hw.imp (tfrView_wf _) id)
+
+/-! ## a failing outcome never arrives as a passing one -/
+/-- **C08 (no pass from fail).**  Whatever the target lacks, the degraded outcome is passing (success, skip,
+expected failure) only if the reported outcome is passing. -/
+theorem C08_no_pass_from_fail (c : Caps) (k : Kind) (h : (degradeKind c k).passing = true) : k.passing = true := by
+  cases k <;> simp only [degradeKind] at h <;> (try split at h) <;> simp_all [Kind.passing]
+
+/-! ## the text of details survives the degradation -/
+theorem isInfix_iff (p : Text) : ∀ (s : Text), isInfix p s = true ↔ p <:+: s
+  | [] => by simp [isInfix, List.infix_nil]
+  | c :: s => by
+      simp only [isInfix, Bool.or_eq_true, List.isPrefixOf_iff_prefix, isInfix_iff p s, List.infix_cons_iff]
+
+/-- **C08 (details text).**  `_details_to_str` — the text of the `_StringException` / reason a target without
+the details protocol receives — contains the stripped text of every non-empty text detail (names in a
+details dict are unique). -/
+theorem C08_details_text (details : Details) (special : Option Text) (n t : Text)
+    (hm : (n, Content.text t) ∈ details) (hu : ∀ p ∈ details, p.1 = n → p = (n, Content.text t))
+    (hne : strip t ≠ []) : strip t <:+: detailsToStr details special :=
+  Lemmas.DetailsStr.detailsToStr_contains details special n t hm hu hne
+
+/-- names of a details dict are pairwise different -/
+def UniqueNames (d : Details) : Prop := ∀ p ∈ d, ∀ q ∈ d, p.1 = q.1 → p = q
+
+theorem textsOf_infix (d : Details) (special : Option Text) (hd : UniqueNames d) :
+    (textsOf d).all (isInfix · (detailsToStr d special)) = true := by
+  rw [List.all_eq_true]
+  intro x hx
+  obtain ⟨p, hp, hpx⟩ := List.mem_filterMap.mp hx
+  obtain ⟨n, c⟩ := p
+  cases c with
+  | text t =>
+    simp only at hpx
+    split at hpx
+    · simp at hpx
+    · rename_i hne
+      simp only [Option.some.injEq] at hpx
+      subst hpx
+      rw [isInfix_iff]
+      exact C08_details_text d special n t hp (fun q hq h => hd q hq _ hp h) (by simpa using hne)
+  | binary ct => simp at hpx
+  | tb => simp at hpx
+
+/-- how an argument can arrive after any number of `ExtendedToOriginalDecorator`s: unchanged, dropped,
+replaced by the synthetic failure of an unexpected success, or its details rendered as exception / reason -/
+def arrives (got orig : Arg) : Bool :=
+  got == orig || got == .none || got == .exc .synth ||
+  match orig with
+  | .details d => got == detailsToExc d || got == .reason (detailsToReason d)
+  | _ => false
+
+theorem arrives_degrade (c : Caps) (k : Kind) (a : Arg) : arrives (degradeArg c k a) a = true := by
+  cases k <;> cases a <;> simp [degradeArg, arrives] <;> (repeat' split) <;> simp_all
+
+theorem arrives_trans (x y z : Arg) (h1 : arrives x y = true) (h2 : arrives y z = true) : arrives x z = true := by
+  simp only [arrives, Bool.or_eq_true, beq_iff_eq] at h1 h2 ⊢
+  rcases h1 with ((h | h) | h) | h
+  · subst h; exact h2
+  · exact .inl (.inl (.inr h))
+  · exact .inl (.inr h)
+  · cases y with
+    | details d =>
+      rcases h2 with ((h2 | h2) | h2) | h2
+      · subst h2; exact .inr (by simpa using h)
+      · cases h2
+      · cases h2
+      · cases z <;> simp [detailsToExc] at h2
+    | _ => simp at h
+
+theorem arrives_textKept (got orig : Arg) (hd : ∀ d, orig = .details d → UniqueNames d)
+    (h : arrives got orig = true) : textKept got orig = true := by
+  simp only [arrives, Bool.or_eq_true, beq_iff_eq] at h
+  rcases h with ((h | h) | h) | h
+  · subst h; cases got <;> simp [textKept]
+  · subst h; cases orig <;> simp [textKept]
+  · subst h; cases orig <;> simp [textKept]
+  · cases orig with
+    | details d =>
+      simp only [Bool.or_eq_true, beq_iff_eq] at h
+      rcases h with h | h
+      · subst h; simp only [textKept, detailsToExc]; exact textsOf_infix d _ (hd d rfl)
+      · subst h
+        simp only [textKept, detailsToReason]
+        cases hl : lookup d reasonKey with
+        | none => simp only []; exact textsOf_infix d _ (hd d rfl)
+        | some c => cases c <;> simp only [beq_self_eq_true] <;> exact textsOf_infix d _ (hd d rfl)
+    | _ => simp at h
+
+/-! ## relations between what a leaf is to receive and the history -/
+mutual
+theorem expect_rel (Q : List Call → List Call → Prop) (hrefl : ∀ evs, Q evs evs)
+    (hstep : ∀ c l evs, Q l (evs.map (degradeCall c)) → Q l evs) :
+    ∀ (s : Shape) (evs : List Call), ∀ l ∈ expect s evs, Q l evs
+  | .sink _, evs, l, h => by simp only [expect, List.mem_singleton] at h; subst h; exact hrefl _
+  | .tt _, evs, l, h => by simp only [expect, List.mem_singleton] at h; subst h; exact hrefl _
+  | .text _, evs, l, h => by simp only [expect, List.mem_singleton] at h; subst h; exact hrefl _
+  | .tbt, evs, l, h => by simp only [expect, List.mem_singleton] at h; subst h; exact hrefl _
+  | .etod c, evs, l, h => hstep _ _ _ (expect_rel Q hrefl hstep c _ l (by simpa [expect] using h))
+  | .deco c, evs, l, h => expect_rel Q hrefl hstep c _ l (by simpa [expect] using h)
+  | .tagger _ _ c, evs, l, h => expect_rel Q hrefl hstep c _ l (by simpa [expect] using h)
+  | .tfr c, evs, l, h => expect_rel Q hrefl hstep c _ l (by simpa [expect] using h)
+  | .e2s c, evs, l, h => expect_rel Q hrefl hstep c _ l (by simpa [expect] using h)
+  | .multi cs, evs, l, h => expectL_rel Q hrefl hstep cs _ l (by simpa [expect] using h)
+theorem expectL_rel (Q : List Call → List Call → Prop) (hrefl : ∀ evs, Q evs evs)
+    (hstep : ∀ c l evs, Q l (evs.map (degradeCall c)) → Q l evs) :
+    ∀ (ss : List Shape) (evs : List Call), ∀ l ∈ expectL ss evs, Q l evs
+  | [], _, _, h => by simp [expectL] at h
+  | s :: ss, evs, l, h => by
+      simp only [expectL, List.mem_append] at h
+      rcases h with h | h
+      · exact expect_rel Q hrefl hstep s evs l h
+      · exact expectL_rel Q hrefl hstep ss evs l h
+end
+
+theorem zipAll_refl {α : Type} (p : α → α → Bool) (h : ∀ a, p a a = true) : ∀ l, zipAll p l l = true
+  | [] => rfl
+  | a :: l => by simp [zipAll, h, zipAll_refl p h l]
+
+theorem zipAll_map_right {α β γ : Type} (p : α → γ → Bool) (q : α → β → Bool) (f : β → γ)
+    (h : ∀ x y, p x (f y) = true → q x y = true) : ∀ (a : List α) (b : List β),
+    zipAll p a (b.map f) = true → zipAll q a b = true
+  | [], [], _ => rfl
+  | [], _ :: _, h' => by simp [zipAll] at h'
+  | _ :: _, [], h' => by simp [zipAll] at h'
+  | x :: a, y :: b, h' => by
+      simp only [List.map_cons, zipAll, Bool.and_eq_true] at h' ⊢
+      exact ⟨h _ _ h'.1, zipAll_map_right p q f h a b h'.2⟩
+
+theorem zipAll_imp {α β : Type} (p q : α → β → Bool) : ∀ (a : List α) (b : List β),
+    (∀ x, ∀ y ∈ b, p x y = true → q x y = true) → zipAll p a b = true → zipAll q a b = true
+  | [], [], _, _ => rfl
+  | [], _ :: _, _, h' => by simp [zipAll] at h'
+  | _ :: _, [], _, h' => by simp [zipAll] at h'
+  | x :: a, y :: b, h, h' => by
+      simp only [zipAll, Bool.and_eq_true] at h' ⊢
+      exact ⟨h _ _ (by simp) h'.1, zipAll_imp p q a b (fun x y hy => h x y (by simp [hy])) h'.2⟩
+
+theorem kindsOf_map (c : Caps) (evs : List Call) :
+    kindsOf (evs.map (degradeCall c)) = (kindsOf evs).map (degradeKind c) := by
+  induction evs with
+  | nil => rfl
+  | cons x evs ih => cases x <;> simp_all [kindsOf, degradeCall]
+
+theorem kindsOf_testEvs (h : List Call) : kindsOf (testEvs h) = kindsOf h := by
+  induction h with
+  | nil => rfl
+  | cons x h ih => cases x <;> simp_all [kindsOf]
+
+theorem argsOf_testEvs (h : List Call) : argsOf (testEvs h) = argsOf h := by
+  induction h with
+  | nil => rfl
+  | cons x h ih => cases x <;> simp_all [argsOf]
+
+/-- outcome by outcome, what any leaf is to receive is passing only if the reported outcome is passing -/
+theorem expect_kinds (s : Shape) (evs : List Call) : ∀ l ∈ expect s evs,
+    zipAll (fun k' k => !k'.passing || k.passing) (kindsOf l) (kindsOf evs) = true :=
+  expect_rel (fun l evs => zipAll (fun k' k => !k'.passing || k.passing) (kindsOf l) (kindsOf evs) = true)
+    (fun evs => zipAll_refl _ (by intro k; cases k <;> rfl) _)
+    (fun c l evs h => by
+      rw [kindsOf_map] at h
+      refine zipAll_map_right _ _ _ (fun x y hxy => ?_) _ _ h
+      cases hx : x.passing
+      · simp
+      · simp only [hx, Bool.not_true, Bool.false_or] at hxy
+        simp [C08_no_pass_from_fail c y hxy]) s evs
+
+/-- kind and argument of every outcome -/
+def kaOf (evs : List Call) : List (Kind × Arg) := evs.filterMap fun | .add k _ a => some (k, a) | _ => none
+
+theorem kaOf_map (c : Caps) (evs : List Call) :
+    kaOf (evs.map (degradeCall c)) = (kaOf evs).map (fun ka => (degradeKind c ka.1, degradeArg c ka.1 ka.2)) := by
+  induction evs with
+  | nil => rfl
+  | cons x evs ih => cases x <;> simp_all [kaOf, degradeCall]
+
+theorem kaOf_snd (evs : List Call) : (kaOf evs).map (·.2) = argsOf evs := by
+  induction evs with
+  | nil => rfl
+  | cons x evs ih => cases x <;> simp_all [kaOf, argsOf]
+
+theorem arrives_refl (a : Arg) : arrives a a = true := by simp [arrives]
+
+theorem expect_args (s : Shape) (evs : List Call) : ∀ l ∈ expect s evs,
+    zipAll (fun got (ka : Kind × Arg) => arrives got ka.2) (argsOf l) (kaOf evs) = true :=
+  expect_rel (fun l evs => zipAll (fun got (ka : Kind × Arg) => arrives got ka.2) (argsOf l) (kaOf evs) = true)
+    (fun evs => by
+      induction evs with
+      | nil => rfl
+      | cons x evs ih => cases x <;> simp_all [kaOf, argsOf, zipAll, arrives_refl])
+    (fun c l evs h => by
+      rw [kaOf_map] at h
+      exact zipAll_map_right (fun got (ka : Kind × Arg) => arrives got ka.2) (fun got (ka : Kind × Arg) => arrives got ka.2)
+        (fun ka : Kind × Arg => (degradeKind c ka.1, degradeArg c ka.1 ka.2))
+        (fun x y hxy => arrives_trans _ _ _ hxy (arrives_degrade c y.1 y.2)) _ _ h) s evs
 
 end TTV.Props.C08
